@@ -21,15 +21,16 @@
 (* the full index is the business of SharesIndex (C07).                    *)
 (*                                                                         *)
 (* The universe is fixed (it is the tree the harness builds on disk):      *)
-(*      D1/x/f1      D1/in/f2   with D2 = D1/in      D3/f3                 *)
-(* so D2 is nested inside D1.  The CONSTANTS choose subsets of it.         *)
+(*      D1/x/f1    D1/in/f2  (D2 = D1/in)    D1/in/deep/f4  (D4 = D2/deep) *)
+(*      D3/f3                                                              *)
+(* so D4 is nested inside D2 inside D1.  The CONSTANTS choose subsets.     *)
 (***************************************************************************)
 EXTENDS Naturals, FiniteSets, Sequences, TLC
 
 CONSTANTS
   Users,          \* subset of {"u1","u2","u3"}
-  Dirs,           \* subset of {"D1","D2","D3"}: directories that may be shared
-  Files,          \* subset of {"f1","f2","f3"}
+  Dirs,           \* subset of {"D1","D2","D3","D4"}: directories that may be shared
+  Files,          \* subset of {"f1","f2","f3","f4"}
   Variants,       \* forms of a requested remote path: "exact" plus decorations ("case","sep","fwd")
   Modes,          \* share modes used by configuration changes
   UserSets,       \* values used for SharedDirectory.users
@@ -45,6 +46,11 @@ CONSTANTS
   FoldExcluded,   \* fixes/C08-1: excluded phrase compared case-insensitively (TRUE) or as sent (FALSE)
   DirReplyLocks,  \* fixes/C08-4: directory-contents reply leaves out files locked for the asker (TRUE)
   ScanDirCycles,  \* fixes/C08-3: scan_directory_files requests a shares cycle (TRUE)
+  AlwaysAccumulate, \* FALSE in the design models; TRUE in the trace spec, which does not see the cycles and
+                  \*        lets `okSince` run from one quiescent point to the next
+  FlagsTakenAtStart, \* _management_job copies and clears the request flags before the work of the cycle
+                  \*        (TRUE, the code) or clears them when the cycle is over (FALSE): a request made
+                  \*        while the cycle is suspended is then lost
   \* ---- environment assumption ----
   RevertWithinTick \* TRUE: the friends/block list may be changed back to the value the user-management
                   \*       job saw last before that job runs again (a change the 1 s poll can never see)
@@ -53,16 +59,21 @@ None == "none"
 AllModes == {"everyone", "friends", "users"}
 Flags == {"up", "search", "shares"}
 
-ParentOf(d) == IF d = "D2" THEN "D1" ELSE None
-HomeOf(f) == CASE f = "f1" -> "D1" [] f = "f2" -> "D2" [] f = "f3" -> "D3"
-\* words occurring in the file's query path ("all" occurs in every path)
-HasW(f) == CASE f = "f1" -> {"wa", "all"} [] f = "f2" -> {"wa", "wb", "all"} [] f = "f3" -> {"wb", "all"}
+ParentOf(d) == CASE d = "D2" -> "D1" [] d = "D4" -> "D2" [] OTHER -> None
+HomeOf(f) == CASE f = "f1" -> "D1" [] f = "f2" -> "D2" [] f = "f3" -> "D3" [] f = "f4" -> "D4"
+\* Character strings occurring in the file's (lower-cased) query path: the words wa, wb and "all" (in
+\* every path), which are also what is searched for, and strings that are no words: pa / pb are cut
+\* out of the inside of the words wa / wb, sp runs from the end of wa over the separator into the next
+\* word (only f1 has that sequence).  An excluded phrase may be any of them.
+HasW(f) == CASE f = "f1" -> {"wa", "all", "pa", "sp"} [] f = "f2" -> {"wa", "wb", "all", "pa", "pb"}
+             [] f = "f3" -> {"wb", "all", "pb"} [] f = "f4" -> {"wb", "all", "pb"}
 Queries == {"wa", "wb", "all"}
 
 \* values for the set-valued constants (cfg files cannot spell tuples)
 PS_None == {{}}
 PS_Small == {{}, {<<"wa", TRUE>>}, {<<"wa", FALSE>>}}
-PS_Big == {{}, {<<"wa", TRUE>>}, {<<"wa", FALSE>>}, {<<"wb", FALSE>>}, {<<"wa", TRUE>>, <<"wb", FALSE>>}}
+PS_Big == {{}, {<<"wa", TRUE>>}, {<<"wa", FALSE>>}, {<<"wb", FALSE>>}, {<<"wa", TRUE>>, <<"wb", FALSE>>},
+           {<<"pa", TRUE>>}, {<<"sp", TRUE>>}, {<<"sp", FALSE>>, <<"pb", TRUE>>}}
 
 RECURSIVE ChainOf(_)
 ChainOf(d) == IF d = None THEN {} ELSE {d} \cup ChainOf(ParentOf(d))
@@ -99,13 +110,16 @@ VARIABLES
   up,          \* upload records: T -> [st, reason, ua]
   flag,        \* _RequestFlag.SHARES_CHANGE is requested
   obs,         \* what the peers saw as the result of the last step (reset by every other step)
+  cpc,         \* the management job: "idle" or "eval" (inside a cycle, between its start and manage_transfers)
+  pend,        \* aborts the running cycle has decided on and is still waiting for: set of <<upload, reason>>
+  okSince,     \* <<user, file>> pairs entitled at some moment since the running cycle began
   nCfg, nReq, nEnv
 
 cfgvars == <<shared, mode, dusers, friends, blocked, excluded>>
 idxvars == <<holder, owner>>
 usrvars == <<friends, blocked, ctxFriends, ctxBlocked, winFriends, winUnblk>>
 vars == <<shared, mode, dusers, holder, owner, friends, blocked, ctxFriends, ctxBlocked, winFriends, winUnblk,
-          excluded, up, flag, obs, nCfg, nReq, nEnv>>
+          excluded, up, flag, obs, cpc, pend, okSince, nCfg, nReq, nEnv>>
 
 NoObs == [k |-> "none"]
 NoUp == [st |-> "NONE", reason |-> "none", ua |-> FALSE]
@@ -140,6 +154,16 @@ Entitled(u, p) == Offered(p) /\ EntitledFile(u, p[1])
 \* next user-management tick plus one cycle.  Until then the scheduler may act on any value the
 \* friends list / block list had since the user-management job last reported a change.
 EntitledFileCtx(u, f) == EntitledFileWith(u, f, winFriends, u \in winUnblk)
+\* The same goes for the shared directories and one cycle: what manage_transfers starts at the end of a
+\* cycle was evaluated at its beginning; a change made while the cycle is suspended (waiting for the
+\* task of an upload it aborts) is for the next cycle.  `okSince` collects who was entitled to what at
+\* some moment of the running cycle.
+EntPairs == {x \in Users \X Files : EntitledFileCtx(x[1], x[2])}
+\* every step but the two ends of a cycle adds the state it starts from (the last state of the cycle is
+\* the one CycleEnd looks at itself)
+OkAcc == okSince' = IF cpc = "eval" \/ AlwaysAccumulate THEN okSince \cup EntPairs ELSE {}
+\* nothing can happen inside a cycle that is not waiting for anything
+MayInterleave == cpc = "idle" \/ pend # {}
 
 ----------------------------------------------------------------------------
 \* What the code computes
@@ -171,9 +195,11 @@ Init ==
   /\ up = [t \in T |-> NoUp]
   /\ flag = FALSE
   /\ obs = NoObs
+  /\ cpc = "idle" /\ pend = {} /\ okSince = {}
   /\ nCfg = 0 /\ nReq = 0 /\ nEnv = 0
 
-Cfg == nCfg < MaxCfg /\ nCfg' = nCfg + 1 /\ obs' = NoObs /\ UNCHANGED <<up, nReq, nEnv>>
+Cfg == nCfg < MaxCfg /\ nCfg' = nCfg + 1 /\ obs' = NoObs /\ UNCHANGED <<up, nReq, nEnv, cpc, pend>> /\ OkAcc
+       /\ MayInterleave
 SameIndex == UNCHANGED <<holder, owner>>
 
 \* ---- shared directories (each emits SharedDirectoryChangeEvent -> SHARES_CHANGE) ----
@@ -282,13 +308,15 @@ UserMgmtTick ==
   /\ winFriends' = friends /\ winUnblk' = {u \in Users : "up" \notin blocked[u]}
   /\ flag' = TRUE
   /\ obs' = NoObs
-  /\ UNCHANGED <<shared, mode, dusers, holder, owner, friends, blocked, excluded, up, nCfg, nReq, nEnv>>
+  /\ UNCHANGED <<shared, mode, dusers, holder, owner, friends, blocked, excluded, up, cpc, pend, nCfg, nReq, nEnv>>
+  /\ OkAcc /\ MayInterleave
 
 ----------------------------------------------------------------------------
 \* Replies seen by the peers
 
 Observe == UNCHANGED <<shared, mode, dusers, holder, owner, friends, blocked, ctxFriends, ctxBlocked,
-                       winFriends, winUnblk, excluded, up, flag, nCfg, nReq, nEnv>>
+                       winFriends, winUnblk, excluded, up, flag, cpc, pend, nCfg, nReq, nEnv>>
+           /\ OkAcc /\ MayInterleave
 
 Indexed == {f \in Files : holder[f] # None}
 NoReply == [replied |-> FALSE, normal |-> {}, locked |-> {}]
@@ -327,7 +355,8 @@ CanFail(s) == s \in {"QUEUED", "INITIALIZING", "UPLOADING", "PAUSED"}
 
 Req == nReq < MaxReq /\ nReq' = nReq + 1
       /\ UNCHANGED <<shared, mode, dusers, holder, owner, friends, blocked, ctxFriends, ctxBlocked, winFriends, winUnblk, excluded,
-                     flag, nCfg, nEnv>>
+                     flag, cpc, pend, nCfg, nEnv>>
+      /\ OkAcc /\ MayInterleave
 
 Refusal(kind, u, p, why) == [k |-> kind, u |-> u, p |-> p, allowed |-> FALSE, why |-> why]
 
@@ -389,30 +418,68 @@ Evaluated(t) ==
               ELSE [st |-> "ABORTED", reason |-> r, ua |-> FALSE]
          ELSE IF r # "none" THEN [up[t] EXCEPT !.reason = r] ELSE up[t]
 
-\* _management_job (517-533): shares part when requested, then manage_transfers: queued uploads are
-\* started, one per user, for users that have nothing in progress, while slots are free.  Which of the
-\* eligible ones is the business of C05; any admissible subset is allowed here.
-Cycle ==
-  LET up1 == IF flag THEN [t \in T |-> Evaluated(t)] ELSE up
-      busy == {UserOf(t) : t \in {x \in T : up1[x].st \in Processing}}
-      free == UploadSlots - Cardinality({x \in T : up1[x].st \in Processing})
-      cand == {t \in T : up1[t].st = "QUEUED" /\ UserOf(t) \notin busy} IN
-  /\ \E S \in SUBSET cand :
-       /\ Cardinality(S) <= (IF free > 0 THEN free ELSE 0)
-       /\ \A a, b \in S : UserOf(a) = UserOf(b) => a = b
-       /\ up' = [t \in T |-> IF t \in S THEN [st |-> "INITIALIZING", reason |-> "none", ua |-> FALSE] ELSE up1[t]]
-       /\ (flag \/ S # {})           \* a cycle that does nothing is not a step
-  /\ flag' = FALSE
+\* _management_job (transfer/manager.py:517-533).  The cycle is not atomic: manage_shares_changed decides
+\* for every upload at once (the loop has no await) and then awaits the transitions together; aborting an
+\* upload that is under way cancels its task and waits for it (the task still has to close its
+\* connection), so the job is suspended there and anything may happen meanwhile.  A request made in that
+\* window (configuration change, user-management tick) sets SHARES_CHANGE again for the next cycle -
+\* because the flags of this cycle were copied and cleared when it began.
+CycleBegin ==
+  /\ cpc = "idle"
+  /\ flag \/ \E t \in T : up[t].st = "QUEUED"          \* a cycle that does nothing is not a step
+  /\ LET ev == [t \in T |-> IF flag THEN Evaluated(t) ELSE up[t]]
+         \* an UPLOADING upload has a file connection to close (an INITIALIZING one only while its
+         \* connection is still being made: not modelled)
+         slow == {t \in T : up[t].st = "UPLOADING" /\ ev[t].st = "ABORTED"} IN
+     \E held \in SUBSET slow :                         \* which of them take time is up to the network
+       /\ up' = [t \in T |-> IF t \in held THEN up[t] ELSE ev[t]]
+       /\ pend' = {<<t, ev[t].reason>> : t \in held}
+  /\ flag' = IF FlagsTakenAtStart THEN FALSE ELSE flag
+  /\ cpc' = "eval"
+  /\ okSince' = EntPairs
   /\ obs' = NoObs
   /\ UNCHANGED <<shared, mode, dusers, holder, owner, friends, blocked, ctxFriends, ctxBlocked, winFriends, winUnblk, excluded,
                  nCfg, nReq, nEnv>>
+
+\* the task of an upload the cycle aborts has ended: the transition is made, if it still can be
+AbortDone(x) ==
+  /\ x \in pend
+  /\ pend' = pend \ {x}
+  /\ IF up[x[1]].st \in {"QUEUED", "INITIALIZING", "UPLOADING", "PAUSED"}
+       THEN Put(x[1], "ABORTED", x[2]) ELSE UNCHANGED up
+  /\ obs' = NoObs /\ OkAcc
+  /\ UNCHANGED <<shared, mode, dusers, holder, owner, friends, blocked, ctxFriends, ctxBlocked, winFriends, winUnblk, excluded,
+                 flag, cpc, nCfg, nReq, nEnv>>
+
+\* (all the waiting aborts at once or one after the other makes no difference to what can interleave)
+AbortsDone == \E x \in pend : AbortDone(x)
+
+\* manage_transfers: queued uploads are started, one per user, for users that have nothing in progress,
+\* while slots are free.  Which of the eligible ones is the business of C05; any admissible subset is
+\* allowed here.
+CycleEnd ==
+  LET busy == {UserOf(t) : t \in {x \in T : up[x].st \in Processing}}
+      free == UploadSlots - Cardinality({x \in T : up[x].st \in Processing})
+      cand == {t \in T : up[t].st = "QUEUED" /\ UserOf(t) \notin busy} IN
+  /\ cpc = "eval" /\ pend = {}
+  /\ \E S \in SUBSET cand :
+       /\ Cardinality(S) <= (IF free > 0 THEN free ELSE 0)
+       /\ \A a, b \in S : UserOf(a) = UserOf(b) => a = b
+       /\ up' = [t \in T |-> IF t \in S THEN [st |-> "INITIALIZING", reason |-> "none", ua |-> FALSE] ELSE up[t]]
+  /\ flag' = IF FlagsTakenAtStart THEN flag ELSE FALSE
+  /\ cpc' = "idle"
+  /\ okSince' = {}
+  /\ obs' = NoObs
+  /\ UNCHANGED <<shared, mode, dusers, holder, owner, friends, blocked, ctxFriends, ctxBlocked, winFriends, winUnblk, excluded,
+                 pend, nCfg, nReq, nEnv>>
 
 ----------------------------------------------------------------------------
 \* The peer's and the user's part in a running upload
 
 Env == nEnv < MaxEnv /\ nEnv' = nEnv + 1
       /\ UNCHANGED <<shared, mode, dusers, holder, owner, friends, blocked, ctxFriends, ctxBlocked, winFriends, winUnblk, excluded,
-                     flag, nCfg, nReq>>
+                     flag, cpc, pend, nCfg, nReq>>
+      /\ OkAcc /\ MayInterleave
 
 \* the peer accepts our PeerTransferRequest, a file connection is made, the file is written
 PeerAccept(t) ==
@@ -462,7 +529,8 @@ Change ==
   \/ \E ps \in PhraseSets : SetExcluded(ps)
   \/ UserMgmtTick
   \/ \E t \in T : QueueRequest(t[1], t[2]) \/ TransferRequest(t[1], t[2])
-  \/ Cycle
+  \/ CycleBegin \/ CycleEnd
+  \/ AbortsDone
   \/ \E t \in T : PeerAccept(t) \/ PeerFinish(t) \/ PeerReject(t) \/ UserAbort(t) \/ UserPause(t)
 
 Look ==
@@ -487,7 +555,9 @@ TypeOK ==
   /\ friends \cup ctxFriends \subseteq winFriends /\ winUnblk \subseteq Users
   /\ \A u \in Users : blocked[u] \subseteq Flags
   /\ \A t \in T : up[t].st \in UpStates /\ up[t].reason \in Reasons
-  /\ flag \in BOOLEAN
+  /\ flag \in BOOLEAN /\ cpc \in {"idle", "eval"}
+  /\ \A x \in pend : x[1] \in T /\ x[2] \in Reasons
+  /\ cpc = "idle" => pend = {}
 
 \* the index attributes every indexed file to the innermost shared directory containing it
 \* (what SharesIndex/C07 establishes; used here to read "the directory of f" off the index)
@@ -528,7 +598,8 @@ NoGrantForUnentitled ==
 UploadStep(t) ==
   /\ (up[t].st = "NONE" /\ up'[t].st # "NONE") => EntitledFile(UserOf(t), FileOf(t))
   /\ (up[t].st \in {"FAILED", "COMPLETE", "ABORTED"} /\ up'[t].st = "QUEUED") => EntitledFile(UserOf(t), FileOf(t))
-  /\ (up[t].st = "QUEUED" /\ up'[t].st = "INITIALIZING") => EntitledFileCtx(UserOf(t), FileOf(t))
+  /\ (up[t].st = "QUEUED" /\ up'[t].st = "INITIALIZING") =>
+        (EntitledFileCtx(UserOf(t), FileOf(t)) \/ <<UserOf(t), FileOf(t)>> \in okSince)
 NoUploadForUnentitledA == \A t \in T : UploadStep(t)
 NoUploadForUnentitled == [][NoUploadForUnentitledA]_vars
 
@@ -552,6 +623,6 @@ Converged(t) ==
   up[t].st \in Unfinished =>
     /\ ~EntitledFile(UserOf(t), FileOf(t)) => up[t].st = "ABORTED"
     /\ up[t].st = "ABORTED" => ReasonTrue(t)
-Quiet == ~flag /\ ctxFriends = friends /\ ctxBlocked = blocked
+Quiet == ~flag /\ cpc = "idle" /\ ctxFriends = friends /\ ctxBlocked = blocked
 Convergence == Quiet => \A t \in T : Converged(t)
 =============================================================================
